@@ -151,6 +151,7 @@ func checkC05(c CaseC05, info *Info) *Failure {
 	switch c.Clause {
 	case "a":
 		mxj.XMLEscapeChars(true)
+		bystanders()
 		x, err := c.encode()
 		if err != nil {
 			return failf("encode-error", "enc %d: %v", c.Enc, err)
@@ -284,6 +285,7 @@ func checkC05(c CaseC05, info *Info) *Failure {
 				return failf("decode-error", "%q: %v", doc, err)
 			}
 			mxj.XMLEscapeCharsDecoder(true)
+			bystanders()
 			mesc, err := mxj.NewMapXml([]byte(doc))
 			if err != nil {
 				return failf("decode-error", "%q: %v", doc, err)
@@ -316,6 +318,7 @@ func checkC05(c CaseC05, info *Info) *Failure {
 				return nil
 			}
 			mxj.XMLEscapeCharsDecoder(true)
+			bystanders()
 			ms, err := mxj.NewMapXmlSeq([]byte(doc))
 			if err != nil {
 				return failf("decode-error", "%q: %v", doc, err)
